@@ -11,6 +11,7 @@
 (*   Parse          request/wms/__init__.py wms_request, request/wmts.py,  *)
 (*                  request/tile.py, service/kml.py (request classes)      *)
 (*   Validate       the validate() methods run by the request constructors *)
+(*                  (parameter presence, BBOX, STYLES, SLD_VERSION)        *)
 (*   Handle         service/{wms,wmts,tile,kml,demo}.py handler methods    *)
 (*   RenderError    exception.py RequestError.render and the exception     *)
 (*                  handlers (request/wms/exception.py, XML / image /      *)
@@ -28,9 +29,18 @@
 (* reaches in a response is a slot <<parameter, position, encoding>>.      *)
 (*                                                                         *)
 (* Defects is the set of deviations of the modelled code from the repaired *)
-(* code: {} is the code with the candidate repairs, {"raw_host",           *)
-(* "raw_header", "xml_ctrl"} is the code as found; "no_escape" and         *)
-(* "no_catch_all" are hypothetical (they show the invariants can fail).    *)
+(* code.  {} is the code with the four candidate repairs.  The code as     *)
+(* found is {"raw_host", "raw_header", "xml_ctrl", "legend_png"}:          *)
+(*   raw_host    Request.base_url prints the Host / X-Forwarded-Host /     *)
+(*               X-Forwarded-Proto values into capabilities unescaped      *)
+(*   raw_header  request text (FORMAT of an image exception, INFO_FORMAT   *)
+(*               of an empty feature info) becomes a header value as sent  *)
+(*   xml_ctrl    XML exception documents keep characters XML cannot carry  *)
+(*   legend_png  a cached legend is served as PNG under the requested type *)
+(* The property fails on that variant (checked by TLC, each counterexample *)
+(* is replayed on the real application).  "no_escape" and "no_catch_all"   *)
+(* are hypothetical: they show that the invariants can fail at all.        *)
+(* The transition relation is the same for all variants except where noted.*)
 (***************************************************************************)
 EXTENDS Naturals, Sequences, FiniteSets, TLC
 
@@ -126,16 +136,19 @@ Dom == [
   notfound   |-> [path |-> <<"word", "hostile", "ctrl">>] @@ Hdr ]
 
 AllOps == DOMAIN Dom
-\* the vectors of an operation with at most MaxDev (0 .. 3) parameters off the baseline
+\* the vectors of an operation with at most MaxDev parameters off the baseline, each enumerated once:
+\* the parameters are put in some fixed order ks and deviations are applied at increasing positions
+RECURSIVE SeqOf(_)
+SeqOf(S) == IF S = {} THEN <<>> ELSE LET x == CHOOSE y \in S : TRUE IN <<x>> \o SeqOf(S \ {x})
 Vectors(op) ==
   LET dom == Dom[op]
-      ks == DOMAIN dom
-      base == [k \in ks |-> dom[k][1]]
+      ks == SeqOf(DOMAIN dom)
+      base == [k \in DOMAIN dom |-> dom[k][1]]
       Dev(k) == {dom[k][n] : n \in 2 .. Len(dom[k])}
-      V1 == UNION {{[base EXCEPT ![k] = c] : c \in Dev(k)} : k \in ks}
-      V2 == UNION {UNION {{[v EXCEPT ![k] = c] : c \in Dev(k)} : k \in {x \in ks : v[x] = base[x]}} : v \in V1}
-      V3 == UNION {UNION {{[v EXCEPT ![k] = c] : c \in Dev(k)} : k \in {x \in ks : v[x] = base[x]}} : v \in V2}
-  IN {base} \cup (IF MaxDev >= 1 THEN V1 ELSE {}) \cup (IF MaxDev >= 2 THEN V2 ELSE {}) \cup (IF MaxDev >= 3 THEN V3 ELSE {})
+      RECURSIVE Ext(_, _, _)
+      Ext(v, i, n) == IF n = 0 \/ i > Len(ks) THEN {v}
+                      ELSE Ext(v, i + 1, n) \cup UNION {Ext([v EXCEPT ![ks[i]] = c], i + 1, n - 1) : c \in Dev(ks[i])}
+  IN Ext(base, 1, MaxDev)
 Requests == UNION {{[op |-> o, p |-> v] : v \in Vectors(o)} : o \in Ops}
 
 (***************************************************************************)
@@ -247,7 +260,7 @@ WmsLegendHandle(p, v) ==
 WmsCaps(p, v) ==
   {Ok(200, WmsCapsCt(v), "xml", "wmscaps" \o v, "none", UrlSlots(p, "attr") \cup (IF v = "100" THEN UrlSlots(p, "chardata") ELSE {}))}
 
-\* wms_request(): version, request type, construction with validation
+\* wms_request(): version, request type -> request class (or the unvalidated dummy map request for the error)
 WmsParse(op, p) ==
   IF p.version = "malformed" THEN {Raise}
   ELSE LET v == V(p.version) IN
@@ -255,8 +268,7 @@ WmsParse(op, p) ==
          IF v = "130" /\ p.bbox \in {"malformed", "empty"} THEN {Raise}          \* adapt_to_111 -> switch_bbox parses BBOX
          ELSE {Err(WmsH(p, v, FmtOf(p)), "none", Ech(p, "request"), 0)} \cup If(v = "130" /\ p.srs \in Text, {Raise})
     ELSE IF op = "wms_legend" /\ v \in {"100", "110"} THEN {Err(WmsH(p, v, FmtOf(p)), "none", {}, 0)}
-    ELSE IF op = "wms_caps" THEN {None}
-    ELSE WmsValidate(op, p, v)
+    ELSE {None}
 
 WmsHandle(op, p) ==
   LET v == V(p.version) IN
@@ -280,10 +292,8 @@ WmtsMissing(op, p) ==
   {k \in {"version", "layer", "style", "tilematrixset", "tilematrix", "tilerow", "tilecol", "format"} \cup
          (IF op = "wmts_fi" THEN {"infoformat", "i", "j"} ELSE {}) : p[k] = "absent"}
 
-WmtsParse(op, p) ==
-  CASE op = "wmts_other" -> {Err(WmtsH, "none", {}, 0)}
-    [] op = "wmts_caps" -> {None}
-    [] OTHER -> IF WmtsMissing(op, p) # {} THEN {Err(WmtsH, "none", {}, 0)} ELSE {None}
+WmtsParse(op, p) == IF op = "wmts_other" THEN {Err(WmtsH, "none", {}, 0)} ELSE {None}
+WmtsValidate(op, p) == IF op \in {"wmts_tile", "wmts_fi"} /\ WmtsMissing(op, p) # {} THEN {Err(WmtsH, "none", {}, 0)} ELSE {None}
 
 WmtsLayerChecks(p, lk, mk) ==       \* check_request(): layer and tile matrix set
   IF p[lk] \in Text \cup {"direct", "word"} THEN {Err(WmtsH, "InvalidParameterValue", Ech(p, lk), 0)}
@@ -306,7 +316,8 @@ WmtsHandle(op, p) ==
         IF "malformed" \in {p.tilematrix, p.tilerow, p.tilecol, p.i, p.j} THEN {Raise}
         ELSE IF WmtsLayerChecks(p, "layer", "tilematrixset") # {} THEN WmtsLayerChecks(p, "layer", "tilematrixset")
         ELSE IF p.infoformat \in Text \cup {"unconfigured"} THEN {Err(WmtsH, "InvalidParameterValue", Ech(p, "infoformat"), 0)}
-        ELSE IF p.tilematrix = "toodeep" THEN {Raise}
+        ELSE IF p.tilematrix = "toodeep" \/ p.tilerow \in {"negative", "outside"} \/ p.tilecol \in {"negative", "outside"}
+          THEN {Err(WmtsH, "TileOutOfRange", {}, 0)}                    \* tile_layer.tile_bbox(request)
         ELSE {Ok(200, IF p.infoformat = "xml" THEN "text/xml; charset=utf-8" ELSE "text/plain; charset=utf-8",
                  IF p.infoformat = "xml" THEN "xml" ELSE "text", IF p.infoformat = "xml" THEN "upstreaminfo" ELSE "none", "none", {})}
 
@@ -332,7 +343,7 @@ RestHandle(op, p) ==
     [] OTHER ->                                                            \* rest_fi
         IF WmtsLayerChecks(p, "layer", "tilematrixset") # {} THEN WmtsLayerChecks(p, "layer", "tilematrixset")
         ELSE IF p.infoformat \in {"unconfigured", "word", "hostile", "ctrl"} THEN {Err(WmtsH, "InvalidParameterValue", Ech(p, "infoformat"), 0)}
-        ELSE IF p.z # "valid" THEN {Raise}
+        ELSE IF p.z # "valid" \/ p.x # "valid" \/ p.y # "valid" THEN {Err(WmtsH, "TileOutOfRange", {}, 0)}
         ELSE {Ok(200, IF p.infoformat = "xml" THEN "text/xml; charset=utf-8" ELSE "text/plain; charset=utf-8",
                  IF p.infoformat = "xml" THEN "xml" ELSE "text", IF p.infoformat = "xml" THEN "upstreaminfo" ELSE "none", "none", {})}
 
@@ -430,12 +441,22 @@ OwsDispatch ==
 
 Goto(o) == CASE o.t = "none" -> "handle" [] o.t = "ok" -> "send" [] o.t = "raise" -> "raised" [] OTHER -> "error"
 
-\* request parsers and the validation run by the request constructors
+\* request parsers: which request class is built (wms_request, wmts_request, the URL patterns of the tile services)
 Parse ==
   /\ pc = "parse"
   /\ LET s == Svc(req.op)
          os == CASE s = "wms" -> WmsParse(req.op, req.p) [] s = "wmts" -> WmtsParse(req.op, req.p)
                  [] s = "rest" -> RestParse(req.op, req.p) [] OTHER -> TileParse(s, req.op, req.p)
+     IN \E o \in os : out' = o /\ pc' = (IF o.t = "none" THEN "validate" ELSE Goto(o))
+  /\ UNCHANGED <<req, resp>>
+
+\* validate() run by the request constructors (WMS and WMTS KVP requests; the other request classes do not validate)
+Validate ==
+  /\ pc = "validate"
+  /\ LET s == Svc(req.op)
+         os == CASE s = "wms" /\ req.op # "wms_caps" -> WmsValidate(req.op, req.p, V(req.p.version))
+                 [] s = "wmts" -> WmtsValidate(req.op, req.p)
+                 [] OTHER -> {None}
      IN \E o \in os : out' = o /\ pc' = Goto(o)
   /\ UNCHANGED <<req, resp>>
 
@@ -510,7 +531,7 @@ Send ==
   /\ pc' = "sent" /\ out' = None
   /\ UNCHANGED req
 
-Next == WsgiApp \/ OwsDispatch \/ Parse \/ Handle \/ RenderError \/ CatchAll \/ Send
+Next == WsgiApp \/ OwsDispatch \/ Parse \/ Validate \/ Handle \/ RenderError \/ CatchAll \/ Send
 Spec == Init /\ [][Next]_vars
 
 (***************************************************************************)
@@ -523,7 +544,7 @@ MarkupFixed == Done => "markup" \notin resp.bad /\ "xml" \notin resp.bad
 NoLeak == Done => \A s \in resp.slots : s[1] # "exception"         \* no text of an internal exception reaches the client
 ImageOK == Done /\ resp.kind = "image" => "image" \notin resp.bad /\ resp.ct \in {"image/png", "image/jpeg", "image/gif", "tainted"} /\ resp.size # "none"
 NoStuck == pc # "sent" => ENABLED Next
-TypeOK == /\ pc \in {"wsgiapp", "ows", "parse", "handle", "error", "raised", "send", "sent"}
+TypeOK == /\ pc \in {"wsgiapp", "ows", "parse", "validate", "handle", "error", "raised", "send", "sent"}
           /\ out.t \in {"none", "ok", "err", "errnoreq", "raise"}
 
 \* one line per terminal state: the table request class -> response class (spec -> code conformance)
